@@ -137,7 +137,15 @@ def streams_two_runs(vc):
 def record_history(vc):
     """What a recording writes does not depend on earlier recordings in the process: default header argument, pipeline caches."""
     npol = 1 + vc.choose(2, 'num_pols')
+    hform = ('default-header', 'caller-dictionary-reused')[vc.choose(2, 'header_dict')]
     be, P = C4.build_backend(vc, npol, 8)
+    user = {'TELESCOP': 'GBT', 'MYCARD': 5}
+    user_before = dict(user)
+    # a channelised-noise estimate computed (seeded) before recording: recording must leave it alone
+    seeded = {}
+    for row in be.fields['filterbank']:
+        for fbk in row:
+            seeded[id(fbk)] = fbk.fields['channelized_stds'] = symbolic_array('seeded_channelized_stds', (2,))
     # arbitrary stale pipeline state left by earlier use
     for row in be.fields['digitizer']:
         for q in row:
@@ -166,6 +174,7 @@ def record_history(vc):
             for row in me.fields['filterbank']:
                 for q in row:
                     ok.append(q.fields['cache'] is None)
+                    ok.append(q.fields['channelized_stds'] is seeded[id(q)])      # frame: the (seeded) estimate is not discarded
             for row in me.fields['requantizer']:
                 for q in row:
                     ok.append(And(eq(q.fields['quantizer_r'].fields['stats_calc_indices'], 0), q.fields['quantizer_r'].fields['stats_cache'][0] is None,
@@ -195,7 +204,11 @@ def record_history(vc):
         fl.sfx = bl.sfx = '_' + tag        # havoc symbols of the two recordings are distinct
         vc.interp.loop_specs[(BK + '.record', 2)] = fl
         vc.interp.loop_specs[(BK + '.record', 3)] = bl
-        out = vc.call(BK + '.record', be, 'out/' + tag, num_blocks=N, length_mode='num_blocks', verbose=False)
+        if hform == 'default-header':
+            out = vc.call(BK + '.record', be, 'out/' + tag, num_blocks=N, length_mode='num_blocks', verbose=False)
+        else:
+            out = vc.call(BK + '.record', be, 'out/' + tag, num_blocks=N, length_mode='num_blocks', header_dict=user, load_template=False, verbose=False)
+            vc.ensure(f'C12/record/{tag}/frame/caller-dictionary-not-modified', And(set(user) == set(user_before), all(user[k] is user_before[k] for k in user_before)))
         vc.ensure(f'C12/record/{tag}/exc/none', out.ok)
         return P_run.get('hd_obj')
     N1, N2 = Int('n1'), Int('n2')
@@ -206,7 +219,7 @@ def record_history(vc):
     vc.cover('reachable')
     # the second recording's loop invariant was established with PKTIDX starting at 0 again (inv-init obligations above);
     # its header is a fresh dictionary with the same cards
-    vc.ensure('C12/record/second-recording/post/header-is-a-fresh-dictionary-with-the-same-cards', And(isinstance(h2, dict), h2 is not h1, set(h2) == set(k1)))
+    vc.ensure('C12/record/second-recording/post/header-is-a-fresh-dictionary-with-the-same-cards', And(isinstance(h2, dict), h2 is not h1, h2 is not user, set(h2) == set(k1)))
     vc.ensure('C12/record/second-recording/post/PKTSTART-restarts', eq(h2['PKTSTART'], 0) if isinstance(h2, dict) and 'PKTSTART' in h2 else False)
 
 
